@@ -161,7 +161,9 @@ def run(tier, seed):
     seen_keys = set()
     for c in calls:
         bump(dist["engine"], c["engine"]); bump(dist["style"], c["style"]); bump(dist["form"], c["form"]); dist["reentrant"] += c["reent"]
-        if c["style"] == "reflect": bump(dist["reflect_ctx"], c["ctx"])
+        if c["style"] == "reflect":
+            bump(dist["reflect_ctx"], c["ctx"])
+            dist["reflect_defined_types"] = dist.get("reflect_defined_types", 0) + (1 if c.get("defined") else 0)
         for kk in (c["pk"] or []) + (c["rk"] or []): bump(dist["kinds"], kk)
         for kk, v in list(zip(c["pk"] or [], c["args"] or [])) + [(kk, slot_of_val(kk, v)) for kk, v in zip(c["rk"] or [], c["hret"] or [])]:
             if kk == "f32" and is_snan32(v): dist["snan32_values"] += 1
